@@ -694,8 +694,20 @@ impl DPEventLoop {
   }
 
   fn remote_reader_discovered(&mut self, remote_reader: &DiscoveredReaderData) {
+    self.match_remote_reader(remote_reader, None);
+  }
+
+  // Update reader proxies in local writers: in every writer of the topic, or
+  // only in the given one.
+  fn match_remote_reader(
+    &mut self,
+    remote_reader: &DiscoveredReaderData,
+    only_writer: Option<EntityId>,
+  ) {
     for writer in self.writers.values_mut() {
-      if remote_reader.subscription_topic_data.topic_name() == writer.topic_name() {
+      if remote_reader.subscription_topic_data.topic_name() == writer.topic_name()
+        && only_writer.map_or(true, |eid| eid == writer.guid().entity_id)
+      {
         #[cfg(not(feature = "security"))]
         let match_to_reader = true;
         #[cfg(feature = "security")]
@@ -769,9 +781,20 @@ impl DPEventLoop {
   }
 
   fn remote_writer_discovered(&mut self, remote_writer: &DiscoveredWriterData) {
-    // update writer proxies in local readers
+    self.match_remote_writer(remote_writer, None);
+  }
+
+  // Update writer proxies in local readers: in every reader of the topic, or
+  // only in the given one.
+  fn match_remote_writer(
+    &mut self,
+    remote_writer: &DiscoveredWriterData,
+    only_reader: Option<EntityId>,
+  ) {
     for reader in self.message_receiver.available_readers.values_mut() {
-      if &remote_writer.publication_topic_data.topic_name == reader.topic_name() {
+      if &remote_writer.publication_topic_data.topic_name == reader.topic_name()
+        && only_reader.map_or(true, |eid| eid == reader.guid().entity_id)
+      {
         #[cfg(not(feature = "security"))]
         let match_to_writer = true;
         #[cfg(feature = "security")]
@@ -875,7 +898,16 @@ impl DPEventLoop {
 
     new_reader.set_requested_deadline_check_timer();
     trace!("Add reader: {:?}", new_reader);
+    let reader_eid = new_reader.guid().entity_id;
+    let topic_name = new_reader.topic_name().clone();
     self.message_receiver.add_reader(new_reader);
+
+    // The writers discovered before this reader existed are not going to be
+    // announced again, so match the new reader with them now.
+    let known_writers = discovery_db_read(&self.discovery_db).writers_on_topic(&topic_name);
+    for remote_writer in known_writers {
+      self.match_remote_writer(&remote_writer, Some(reader_eid));
+    }
   }
 
   fn remove_local_reader(&mut self, reader_guid: GUID) {
@@ -935,7 +967,16 @@ impl DPEventLoop {
       )
       .expect("Writer command channel registration failed!!");
 
-    self.writers.insert(new_writer.guid().entity_id, new_writer);
+    let writer_eid = new_writer.guid().entity_id;
+    let topic_name = new_writer.topic_name().clone();
+    self.writers.insert(writer_eid, new_writer);
+
+    // The readers discovered before this writer existed are not going to be
+    // announced again, so match the new writer with them now.
+    let known_readers = discovery_db_read(&self.discovery_db).readers_on_topic(&topic_name);
+    for remote_reader in known_readers {
+      self.match_remote_reader(&remote_reader, Some(writer_eid));
+    }
   }
 
   fn remove_local_writer(&mut self, writer_guid: &GUID) {
